@@ -22,7 +22,7 @@ package merkledag
 //@   assumed
 //@   ensures[found] err == nil ==> result0 != nil && namedBytes(n, name) > 0
 //@   ensures[unique] err == nil ==> namedBytes(n, name) == linkEntryBytes(len(name), result0.Cid, result0.Size)
-//@   ensures[notfound] err != nil ==> err == ErrLinkNotFound && namedBytes(n, name) == 0
+//@   ensures[notfound] err != nil ==> err == ErrLinkNotFound && namedBytes(n, name) == 0 && result0 == nil
 
 //@ func (*ProtoNode).RemoveNodeLink
 //@   assumed
